@@ -22,7 +22,8 @@ def one(d):
             r=subprocess.run(['/verif/bin/govc','-repo',T+'/repo','-specs','/verif/specs','-prop',p,'-tier','quick','-replaydir',T+'/replay'],cwd='/verif',capture_output=True,text=True,env=env)
             obs=sorted(set(l.split('replay=')[1].split()[0].split('/')[-1][:-5] for l in r.stdout.splitlines() if l.startswith('VIOLATION')))
             und=[l for l in r.stdout.splitlines() if l.startswith('UNDECIDED')]
-            if r.returncode!=0: fired[p]={'exit':r.returncode,'obligations':obs[:6],'undecided':und[:2]}
+            conc=sorted(set(l.split('replay=')[1].split()[0].split('/')[-1][:-5] for l in r.stdout.splitlines() if l.startswith('VIOLATION') and 'no-failing-input-found' not in l))
+            if r.returncode!=0: fired[p]={'exit':r.returncode,'obligations':obs[:6],'undecided':und[:2],'with_failing_input':conc[:6]}
         return name,fired
     finally:
         shutil.rmtree(T,ignore_errors=True)
@@ -38,6 +39,7 @@ with ThreadPoolExecutor(max_workers=int(os.environ.get('JOBS','3'))) as ex:
         own=meta['property']
         if 'error' in fired:
             print(name,'ERROR',fired['error']); continue
+        if fired.get(own,{}).get('with_failing_input'): print('   failing input found for', name)
         print(name, 'own property', own, '->', 'DETECTED' if fired.get(own,{}).get('exit')==1 else ('undecided' if fired.get(own,{}).get('exit')==2 else 'missed'), '| all:', {k:v['exit'] for k,v in fired.items()},flush=True)
         meta['detected_by']={k:v for k,v in fired.items()}
         json.dump(meta,open(d+'meta.json','w'),indent=1)
